@@ -93,7 +93,7 @@ def gen_history(seed, max_edits=8, features=None, inproc_only=False, deps_ops=Tr
 def apply_with_discipline(prog, e, n):
     """Apply an edit; bump explicit versions whose closure it touches. Returns (prog, touched units)."""
     p, touched = progen.apply_edit(prog, e)
-    if not DISCIPLINE[0]:
+    if not DISCIPLINE[0] or e["kind"] == "set_explicit":
         return p, touched
     tn = set(u[1] for u in touched if u[0] == "n")
     for u in touched:
